@@ -1210,7 +1210,9 @@ class ContainerEngine:
                     op["bad_kw"] = g.choice(["shallow", "expand_refs", "recursive"])
                 elif op["op"] == "copy" and g.random() < 0.15:
                     op["srcobj"] = True
-                if not op.get("bad_kw"):
+                if op["op"] == "set_ds" and g.random() < 0.03:
+                    op["val"] = ["o"]  # unstorable value: must fail alike on all drivers, without effect
+                if not op.get("bad_kw") and op.get("val") != ["o"]:
                     sh.apply(op)
                 if op["op"] == "del":
                     ms.drop(T.Shadow.join(op["base"], op["path"]))
